@@ -171,7 +171,8 @@ def run(report, tier, seed):
             except Exception:  # noqa: BLE001   a malformed polynomial may not even print
                 return f"<{type(x).__name__} shape={getattr(x, 'shape', '?')} names={getattr(x, 'names', '?')} keys={list(getattr(x, 'keys', []))[:6]}>"
         if bad:
-            viol.append(("wf:" + name, f"result of {name} on {safe(a)}, {safe(b)} is not well-formed: {bad[0]}"
+            kind = "wf:" + name + (":empty-grid" if name == "monomial" and getattr(res, "size", 1) == 0 else "")
+            viol.append((kind, f"result of {name} on {safe(a)}, {safe(b)} is not well-formed: {bad[0]}"
                                        + (f" (result: {safe(res)})" if name in ("monomial", "variable") else ""),
                          {"op": name, "a": safe(a), "b": safe(b), "facts": bad}))
         else:
